@@ -16,7 +16,7 @@ from .. import common, gw
 from ..common import Ctx
 
 THEOREMS = ["C13_snapshot_leaves_engine", "C13_snapshots_leave_engine", "C13_still_receiving", "C13_snapshot_when_paused",
-            "C13_engine_invariant", "C13_never_stuck", "C13_unguarded_refuted", "C13_guarded_repaired", "C13_merged_guard_refuted"]
+            "C13_engine_invariant", "C13_never_stuck", "C13_unguarded_refuted", "C13_guarded_repaired", "C13_merged_guard_refuted", "C13_tx_rate_total", "C13_tx_rate_early_exit_refuted"]
 
 PRELUDE = ("From Coq Require Import List Bool Arith.\nFrom RV Require Import M_Engine.\nImport ListNotations.\n"
            "Set Printing Width 1000000.\nSet Printing Depth 1000000.\n"
@@ -431,6 +431,73 @@ def run(ctx: Ctx) -> None:
                 ctx.violation("foreign-traffic-stops-sending", f"after a neighbour controller's I|1F09 (sync in {rem} s, never followed up) a frame offered at {off:.1f} s "
                               + ("never reached the port" if wr is None else f"reached the port {wr - off:.1f} s later"),
                               {"announcement": ["01:999999", 1.0, rem], "offered_at": off, "written_at": wr}, "history")
+    # the gateway's status on a LIVE transport carries the transmit rate (tx_rate), computed from the times of the last (up to 99) transmits: for every
+    # history of transmits and every later moment -- minutes of silence included -- reading it returns a number, and the next frame can still be
+    # written (the same computation runs inside every write)
+    import collections  # noqa: PLC0415
+
+    import ramses_tx.transport as _tr  # noqa: PLC0415
+
+    real_dt = _tr.dt
+    t0 = real_dt(2026, 1, 1, 12)
+
+    class Clock(real_dt):
+        at = t0
+
+        @classmethod
+        def now(cls, tz=None):
+            return cls.at
+
+    _tr.dt = Clock
+    tx_rows = []
+    try:
+        for k in range(60 if thorough else 24):
+            n_tx = rng.choice([0, 1, 2, 2, 3, 5, 40, 99, 120])
+            gaps = [rng.choice([0.05, 0.2, 1.0, 7.0, 60.0, 299.0, 301.0, 900.0]) for _ in range(n_tx)]
+            quiet = rng.choice([0.0, 0.05, 10.0, 299.9, 300.0, 300.1, 301.0, 3600.0])
+            tx = _tr.PortTransport.__new__(_tr.PortTransport)
+            tx._transmit_times = collections.deque(maxlen=_tr._MAX_TRACKED_TRANSMITS) if hasattr(_tr, "_MAX_TRACKED_TRANSMITS") else collections.deque(maxlen=99)
+            tx._extra = {}
+            Clock.at = t0
+            case = {"seconds_between_transmits": gaps, "then_quiet_for": quiet}
+            ctx.case(("tx-rate", n_tx, tuple(gaps), quiet), n_tx > 1, "status:tx-rate-after-transmits-and-silence")
+            try:
+                for g in gaps:
+                    Clock.at = Clock.at + _dt.timedelta(seconds=g)
+                    tx._track_transmit_rate()
+                Clock.at = Clock.at + _dt.timedelta(seconds=quiet)
+                rate = tx.get_extra_info("tx_rate")
+                us = lambda t: round((t - t0).total_seconds() * 1e6)  # noqa: E731
+                tx_rows.append(([us(t) for t in tx._transmit_times], us(Clock.at), rate))
+                if not isinstance(rate, int | float) or rate != rate or rate < 0:
+                    ctx.violation("view-returns-no-number:status:_tx_rate", f"tx_rate is {rate!r}", case, "history")
+                Clock.at = Clock.at + _dt.timedelta(seconds=0.05)      # (two transmits never carry the same timestamp here: writes are a gap apart)
+                tx._track_transmit_rate()           # ... and the next write
+                tx.get_extra_info("tx_rate")
+            except Exception as err:  # noqa: BLE001
+                ctx.violation(f"view-raises:status:_tx_rate:{type(err).__name__}", f"the transmit rate behind Gateway.status['_tx_rate'] (also computed inside every write) raises "
+                              f"{type(err).__name__} after {n_tx} transmits and {quiet} s of silence", {**case, "error": repr(err)}, "history")
+    finally:
+        _tr.dt = real_dt
+    if built and tx_rows:       # M_TxRate.report on the same transmit times and moments: the number of transmits in the window / the rate (to 0.01 per minute)
+        src = ("From Coq Require Import ZArith List.\nFrom RV Require Import M_TxRate.\nImport ListNotations.\nOpen Scope Z_scope.\nSet Printing Width 1000000.\nSet Printing Depth 1000000.\n"
+               "Definition sh (r : rate) : list Z := match r with Count n => [0; Z.of_nat n] | PerMinuteX100 q => [1; q] | _ => [9] end.\n")
+        src += "".join(f"Eval vm_compute in (sh (report {now} [{'; '.join(map(str, ts))}])).\n" for ts, now, _ in tx_rows)
+        rc, out = common.coq_eval("C13tx", {"t": src}, timeout=300)["t"]
+        rows = [eval(o.replace(";", ","), {"__builtins__": {}}) for o in re.findall(r"=\s*(\[.*?\])\s*:\s*list Z", out, flags=re.S)]  # noqa: S307
+        bad = []
+        if rc or len(rows) != len(tx_rows):
+            bad.append(f"rc={rc} {len(rows)} results for {len(tx_rows)}: {out[-200:]}")
+        else:
+            for (ts, now, rate), r in zip(tx_rows, rows):
+                n_in = sum(1 for t in ts if t > now - 300_000_000)
+                ok = (r == [0, n_in] and rate == n_in) if n_in <= 1 else (r[0] == 1 and abs(r[1] - rate * 100) <= 1.01)
+                if not ok:
+                    bad.append(f"{len(ts)} transmits, {n_in} in the window at {now}: model {r}, _report_transmit_rate() {rate}")
+        ctx.obligation("correspondence:tx-rate", not bad, "correspondence", f"{len(bad)} of {len(tx_rows)} differ; first: {bad[0][:300]}" if bad else
+                       f"{len(tx_rows)} histories of transmits and silences: the window count / the rate to 0.01 per minute agree")
+    elif not built:
+        ctx.obligation("correspondence:tx-rate", False, "correspondence", "model not built")
     # foreign traffic
     n_for = 60 if thorough else 12
     for i in range(n_for):
